@@ -41,6 +41,9 @@ CHECKS = {
  "C14": dict(design="5/C14", technique="TLA+ IRMachine spec with a core-id intrinsic; TLC runs the original function and the real dispatch-regions output once per core id and compares the core's log with the original log filtered by the statement's rule",
    text="Generated functions (memref.copy, linalg.generic, dart.operation on snax_alu and on snax_xdma with an extension kernel, barriers, all-core ops; nested scf.for/scf.if; adjacent and separated) x core counts from {2,3,4,5}: for every core id c (snax_cluster_core_idx = c) and every trip count / branch outcome, the log of the dispatched program must equal the original log filtered by 'data movement -> core N-1, compute -> core 0, everything else -> all cores' in the original order; the same for every clone produced by function-constant-pinning from the emitted pin_to_constants attribute.",
    note="Single-block functions (the machine interprets structured control flow only); xDMA extension kernel table read from the extensions' declarations."),
+ "C13": dict(design="5/C13", technique="TLA+ Cluster interleaving model (exhaustive, small traces) linking race/deadlock freedom under all interleavings to a trace condition; that condition evaluated by TLC on the sequential runs of the real insert-sync-barrier output for all trip counts; per-core runs of the dispatched program for barrier participation",
+   text="(1) Cluster.tla: for all traces up to length 3 (4 in thorough) over dm/compute/all-core ops and barriers, TLC explores every interleaving of the two cores with non-atomic operations: if every single-core op is separated by a barrier from each later conflicting op of another class (TraceOK) then no conflicting ops are ever in flight together and no schedule deadlocks (negative control: without TraceOK a race is found). (2) TLC runs the real insert-sync-barrier output on IRMachine for every trip count and evaluates TraceOK on the event log with buffer aliasing through views (contract Barriers; also: only barriers were inserted). (3) The real dispatch-regions output is run once per core: every core executes the same barrier sequence (no core-specific barrier => no deadlock).",
+   note="Known findings (3 witnesses): the pass is a linear walk, dependencies across control-flow boundaries are not protected on every path; generated programs are straight-line or loops with loop-local buffers."),
 }
 NA_REASON = "check not built yet in this round (planned: see DESIGN.md section 5); will be claimed once its TLA+ module and binding exist"
 def main():
